@@ -21,7 +21,15 @@ PROP = [  # (subject fragment, property)
  ("out-of-place write is pending", "C03"), ("flush the SIE stream before", "C03"), ("MPLEX write must test the index", "C03"),
  ("pad complex fields with '0;0'", "C04"), ("temporary file the field's encoding", "C13"), ("update its cached sample size", "C13"),
  ("fdopen fails", "C12"), ("SINDIR is a Standards Version 10", "C08"), ("numeric escape sequence may be ended", "C08"),
- ("cannot contain '#' or a space", "C08"), ("_GD_NativeType must decrement", "C10"), ("only open for reading must not fail", "C05"),
+ ("cannot contain '#' or a space", "C08"), ("_GD_NativeType must decrement", "C10"), ("only open for reading must not fail", "C05"), ("leaked the line buffer", "C05"),
+ ("second input has no data", "C01"), ("GD_DEL_DEREF must still clear", "C15"), ("dangling alias of the new name", "C15"),
+ ("gd_framenum must not re-read", "C19"), ("gd_framenum must report a constant range", "C19"),
+ ("SBitEntry constructor", "C20"), ("SetNumBits", "C20"), ("Entry::Rename", "C20"),
+ ("GD_ARM_ENDIAN/GD_NOT_ARM_ENDIAN", "C13"), ("between a text and a binary encoding", "C13"), ("text-encoded fragment must not try to commit", "C13"),
+ ("must convert native-order samples", "C13"), ("smaller offset must pad", "C13"), ("_GD_LzmaClose must reset", "C13"),
+ ("test the write bit of the mode", "C13"), ("/FRAMEOFFSET 0 for an included", "C07"), ("after an SIE write the I/O pointer", "C03"),
+ ("position is that of the write side", "C03"), ("empty root namespace", "C09"), ("_GD_UpdateAliases must re-resolve", "C09"),
+ ("step back over a partly written", "C18"), ("failing out-of-place write must report", "C14"), ("close failures while replacing", "C14"),
 ]
 out = subprocess.run(["git", "-C", os.environ.get("VERIF_REPO", "/repo"), "log", "--reverse", "--format=%h %s"], stdout=subprocess.PIPE).stdout.decode()
 fixed = []
